@@ -161,6 +161,18 @@ CHECKS["C08"] = dict(
     note="partial: memory_stack/iteration_allocator composable traits at theorem level only (arena ownership); 'handed out' is approximated by "
          "'inside a held block' - the library cannot distinguish a live node from a free node of its own block (not claimed by the property).",
     technique="Lean 4 proof (ownership lemmas + routing induction) + correspondence")
+CHECKS["C13"] = dict(
+    text="(1) Translator: the member table of allocator_storage is regenerated on every run from clang's AST (every member function body: "
+         "does it forward to the allocator traits, is a std::lock_guard<actual_mutex> on *this declared first, is it the lock() proxy), plus "
+         "locked_allocator's constructor/destructor/move; a Lean `decide` over the complete table proves every forwarding member (throwing, "
+         "composable, size query) locks first. (2) Lean theorem by induction over schedules: for any number of threads, any programs of "
+         "table members and proxy uses and any interleaving, every access to the wrapped allocator is executed by the thread that owns the "
+         "mutex and no two threads hold it at once; the hypothesis is shown necessary (an unlocked member yields an unowned access). "
+         "Validated by a multi-thread stress on the real storages with an instrumented mutex and allocator; mutex_for selection read from "
+         "the compiled code.",
+    note="partial: data-race freedom follows from mutual exclusion + std::mutex semantics (trusted); ThreadSanitizer run in the thorough tier "
+         "is supporting evidence. Per storage object (copies have their own mutex).",
+    technique="Lean 4 proof (decide over AST-generated table + invariant over all schedules) + instrumented multi-thread stress")
 NOT_YET = {}
 
 def main():
